@@ -29,6 +29,9 @@
  * (part of -fsanitize=undefined for C++) rejects every member access inside buffer::trim & co;
  * the library object of array.cpp in libmpt++.a is then not pulled in by the linker. */
 #include "array.cpp"
+#include "meta.h"
+#include "config.h"
+#include "event.h"
 
 extern "C" int __lsan_do_recoverable_leak_check(void);
 
@@ -111,6 +114,85 @@ static void el_fini(void *ptr, int k)
 	else if (h.magic == DEAD) ev("x%u", h.tok);
 	else ev("x?");
 }
+/* ---- library element types (case header L<type>:<size> instead of A<size>): the traits of
+ * kind a are the library's; elements built by the harness own a heap resource each, so that a
+ * missing destructor call shows as a leak (LeakSanitizer / counters) and a second one as a
+ * double free (ASan).  Events and tokens are not observable: printed as '*'. */
+enum { LIB_NONE, LIB_ID, LIB_ARR, LIB_MREF, LIB_CFG, LIB_CMD };
+static int lib_mode;
+static const char longname[] = "a-name-that-does-not-fit-into-the-identifier-itself";
+struct cmeta : public mpt::metatype {
+	uintptr_t ref;
+	cmeta() : ref(1) { ++live_count; }
+	int convert(mpt::type_t, void *) { return mpt::BadType; }
+	void unref() { if (!--ref) { --live_count; delete this; } }
+	uintptr_t addref() { return ++ref; }
+	mpt::metatype *clone() const { return 0; }
+};
+#define MAXCMD 4096
+static int cmd_state[MAXCMD], cmd_next;
+static int cmd_fn(void *arg, void *evt)
+{
+	int *st = (int *) arg;
+	if (evt) return 0;
+	if (*st == 1) { *st = 0; --live_count; }
+	else live_count -= 1000;      /* finalized twice */
+	return 0;
+}
+static void lib_fill(void *ptr)
+{
+	switch (lib_mode) {
+	case LIB_ID:
+		mpt_identifier_set((mpt::identifier *) ptr, longname, -1);
+		break;
+	case LIB_ARR:
+		((carr *) ptr)->buf = reinterpret_cast<rawbuf *>(mpt::_mpt_buffer_alloc(8, 0));
+		break;
+	case LIB_MREF:
+		*((mpt::metatype **) ptr) = new cmeta;
+		break;
+	case LIB_CFG: {
+		/* C layout: elements (array), value (metatype *), identifier */
+		struct citem { carr elements; mpt::metatype *value; uint8_t ident[16]; } *it = (citem *) ptr;
+		const type_traits *t = mpt::mpt_config_item_traits();
+		rawbuf *sub = reinterpret_cast<rawbuf *>(mpt::_mpt_buffer_alloc(t->size, 0));
+		sub->traits = t;
+		mpt_buffer_set(reinterpret_cast<mpt::buffer *>(sub), t, 0, 0, t->size);
+		mpt_identifier_set((mpt::identifier *) ((citem *) (sub + 1))->ident, longname, -1);
+		it->elements.buf = sub;
+		it->value = new cmeta;
+		mpt_identifier_set((mpt::identifier *) it->ident, longname, -1);
+		break; }
+	case LIB_CMD: {
+		struct ccmd { uintptr_t id; int (*cmd)(void *, void *); void *arg; } *c = (ccmd *) ptr;
+		if (cmd_next < MAXCMD) {
+			cmd_state[cmd_next] = 1;
+			++live_count;
+			c->id = cmd_next + 1;
+			c->cmd = cmd_fn;
+			c->arg = &cmd_state[cmd_next++];
+		}
+		break; }
+	}
+}
+/* constructor / destructor calls made by the harness itself */
+static void own_construct(void *ptr, int k)
+{
+	if (lib_mode && !k) {
+		TR[0]->init(ptr, 0);
+		lib_fill(ptr);
+		return;
+	}
+	own = 1;
+	el_init(ptr, 0, k);
+	own = 0;
+}
+static void el_fini(void *ptr, int k);
+static void own_destroy(void *ptr, int k)
+{
+	if (lib_mode && !k) TR[0]->fini(ptr);
+	else el_fini(ptr, k);
+}
 static int initA(void *p, const void *s) { return el_init(p, s, 0); }
 static int initB(void *p, const void *s) { return el_init(p, s, 1); }
 static void finiA(void *p) { el_fini(p, 0); }
@@ -134,7 +216,7 @@ static void dump(void)
 {
 	rawbuf *seen[NH];
 	int nseen = 0, h;
-	vh_add("|%s|", evlog.empty() ? "-" : evlog.c_str());
+	vh_add("|%s|", lib_mode ? "*" : evlog.empty() ? "-" : evlog.c_str());
 	evlog.clear();
 	for (h = 0; h < NH; h++) {
 		rawbuf *b = H[h].buf;
@@ -148,6 +230,7 @@ static void dump(void)
 		       !b->traits ? "r" : k == 0 ? "a" : k == 1 ? "b" : "?");
 		if (k < 0 || b->used < esz[k]) { vh_add("-"); continue; }
 		size_t n = b->used / esz[k], i;
+		if (lib_mode) { vh_add("*%zu", n); continue; }
 		const uint8_t *d = (const uint8_t *) (b + 1);
 		for (i = 0; i < n; i++) {
 			ehdr e;
@@ -169,9 +252,7 @@ static void construct_range(rawbuf *b, uint8_t *at, size_t len)
 	int k = kind_of_traits(b->traits);
 	size_t i;
 	if (k < 0) return;
-	own = 1;
-	for (i = 0; i + esz[k] <= len; i += esz[k]) el_init(at + i, 0, k);
-	own = 0;
+	for (i = 0; i + esz[k] <= len; i += esz[k]) own_construct(at + i, k);
 }
 static mpt::buffer *cxx(rawbuf *b) { return reinterpret_cast<mpt::buffer *>(b); }
 
@@ -182,10 +263,22 @@ static void release(int h)
 static void run_case(int ntok, char **tok)
 {
 	int t = 4, h;
-	esz[0] = vh_int(tok[1] + 1);
 	esz[1] = vh_int(tok[2] + 1);
 	script = strcmp(tok[3] + 1, "-") ? tok[3] + 1 : "";
-	TR[0] = new type_traits(esz[0], finiA, initA);
+	if (tok[1][0] == 'L') {
+		const char *ty = tok[1] + 1, *col = strchr(ty, ':');
+		esz[0] = vh_int(col + 1);
+		if (!strncmp(ty, "id:", 3)) { lib_mode = LIB_ID; TR[0] = mpt::mpt_identifier_traits(); }
+		else if (!strncmp(ty, "arr:", 4)) { lib_mode = LIB_ARR; TR[0] = mpt::mpt_array_traits(); }
+		else if (!strncmp(ty, "mref:", 5)) { lib_mode = LIB_MREF; TR[0] = mpt::mpt_meta_reference_traits(); }
+		else if (!strncmp(ty, "cfg:", 4)) { lib_mode = LIB_CFG; TR[0] = mpt::mpt_config_item_traits(); }
+		else if (!strncmp(ty, "cmd:", 4)) { lib_mode = LIB_CMD; TR[0] = mpt::mpt_command_traits(); }
+		if (!lib_mode || TR[0]->size != esz[0]) { vh_tok("?size:%zu", lib_mode ? TR[0]->size : (size_t) 0); return; }
+	}
+	else {
+		esz[0] = vh_int(tok[1] + 1);
+		TR[0] = new type_traits(esz[0], finiA, initA);
+	}
 	TR[1] = new type_traits(esz[1], finiB, initB);
 	while (t < ntok) {
 		const char *op = tok[t++];
@@ -220,12 +313,10 @@ static void run_case(int ntok, char **tok)
 					if (k >= 0) n = (len + esz[k] - 1) / esz[k];
 					/* exact-size block: a read past the source elements is seen by ASan */
 					if (k >= 0) src = (uint8_t *) malloc(n * esz[k] ? n * esz[k] : 1);
-					own = 1;
-					for (i = 0; i < n; i++) el_init(src + i * esz[k], 0, k);
-					own = 0;
+					for (i = 0; i < n; i++) own_construct(src + i * esz[k], k);
 				}
 				r = mpt_buffer_set(cxx(b), traits_of(ks), pos, (withsrc && k >= 0) ? src : 0, len);
-				for (i = 0; i < n; i++) el_fini(src + i * esz[k], k);
+				for (i = 0; i < n; i++) own_destroy(src + i * esz[k], k);
 				free(src);
 				out_num(r);
 			}
